@@ -175,6 +175,9 @@ impl Property for C15 {
         let fams: Vec<FamId> = if quick { vec![FamId::K256, FamId::Ed] } else { ALL_FAMS.to_vec() };
         Box::new(fams.into_iter().flat_map(move |f| history::exhaustive(f, if quick { 1 } else { 2 })).map(Case::Hist))
     }
+    fn fuzz_plans(&self) -> Vec<(&'static str, u64)> {
+        vec![("history", 5000)]
+    }
     fn gen(&self, c: &mut Choices) -> Case {
         Case::Hist(history::gen_history(c, None))
     }
